@@ -92,13 +92,11 @@ def powWordBaseBuf (W base exp : Nat) : Except PanicKind PowBuf := do
 def powDwordBaseBuf (W base exp : Nat) : Except PanicKind PowBuf := do
   let res : PowBuf := ⟨[], bufDefaultCapacity (2 * exp)⟩
   let memWords := exp + sqrMemReq exp
-  let p := base * base
-  let lo := p % 2 ^ (2 * W)
-  let hi := p / 2 ^ (2 * W)
-  let res ← res.push (lo % 2 ^ W)
-  let res ← res.push (lo / 2 ^ W)
-  let res ← res.push (hi % 2 ^ W)
-  let res ← res.push (hi / 2 ^ W)
+  let p := mulAddCarryDword W base base 0          -- `math::mul_add_carry_dword(base, base, 0)`
+  let res ← res.push (p.1 % 2 ^ W)
+  let res ← res.push (p.1 / 2 ^ W)
+  let res ← res.push (p.2 % 2 ^ W)
+  let res ← res.push (p.2 / 2 ^ W)
   powLoopE (PowBuf.mulDword W base) (PowBuf.square W memWords) exp (bitLen exp - 2) res
 
 end Dashu.Model
